@@ -122,6 +122,9 @@ def oracle(reset, evs):
         if i in rejected:
             bad("rejected_started", "closure %s was handed back in DispatchError and yet called" % i)
     for i in rejected:
+        if kind.get(i) == "async" and fault == "none" and not wpanics:
+            # Dispatcher::dispatch: "If all threads have panicked, this method will return an error"
+            bad("rejected_without_cause", "dispatch of task %s was rejected although no worker thread died" % i)
         if i not in intact:
             bad("rejected_closure_lost", "DispatchError for task %s did not carry the closure that was sent" % i)
     for i, f in list(finish.items()) + list(panic.items()):
@@ -323,9 +326,9 @@ def validate_all(run, lines, tmp, flagged, programs, chunks=1):
     return acc, drift, states, gen, left
 
 
-def negative_controls(lines, tmp, both):
-    """Corrupt one recorded field and require that Trace_Dispatcher AND the oracle reject it."""
-    runs = split_runs(lines)[:12]
+def build_controls(runs, both):
+    """Corrupt one recorded field of an otherwise valid history: name -> (trace, line that must be the
+    first unmatched one, oracle kind that must be flagged)."""
     flat = []
     for rs, evs in runs:
         flat.append(rs)
@@ -344,14 +347,20 @@ def negative_controls(lines, tmp, both):
                     break
         if ib:
             break
-    if ia is None or ib is None:
-        raise vlib.ToolError("negative control: no start / finish+recv events in the first runs")
-    a = flat[:ia + 1] + [dict(flat[ia])] + flat[ia + 1:]
-    nfin, nrecv = ib
-    b = flat[:nfin] + [flat[nrecv]] + flat[nfin:nrecv] + flat[nrecv + 1:]
-    expect = {"dupstart": (a, ia + 2, "start_twice")}
-    if both:
-        expect["recv_before_finish"] = (b, nfin + 1, "result_unexplained")
+    expect = {}
+    if ia is not None:
+        expect["dupstart"] = (flat[:ia + 1] + [dict(flat[ia])] + flat[ia + 1:], ia + 2, "start_twice")
+    if both and ib is not None:
+        nfin, nrecv = ib
+        expect["recv_before_finish"] = (flat[:nfin] + [flat[nrecv]] + flat[nfin:nrecv] + flat[nrecv + 1:],
+                                        nfin + 1, "result_unexplained")
+    return expect
+
+
+def negative_controls(lines, tmp, both):
+    """Started next to the real validation, on the first runs that satisfy the contract oracle."""
+    runs = [(rs, evs) for rs, evs in split_runs(lines) if not oracle(rs, evs)][:12]
+    expect = build_controls(runs, both)
     results = {}
 
     def work(name):
@@ -368,14 +377,24 @@ def negative_controls(lines, tmp, both):
     return ths, results, expect
 
 
-def finish_negative_controls(ths, results, expect):
+def finish_negative_controls(run, ths, results, expect, both):
+    """The corrupted trace must be rejected exactly at the corrupted line and the oracle must flag it."""
     for t in ths:
         t.join()
+    if "dupstart" not in expect or (both and "recv_before_finish" not in expect):
+        if run.violations:
+            run.note("negative_controls", "skipped: no history without a contract violation to corrupt")
+            return
+        raise vlib.ToolError("negative control: no start / finish+recv events in the first runs")
     for name, (tr, where, okind) in expect.items():
         x = results[name]
         if isinstance(x, BaseException):
             raise x
         ok, first = x
+        if not ok and first < where and run.violations:
+            # the uncorrupted prefix is already rejected (the code under test misbehaves): inconclusive
+            run.note("negative_control_" + name, "inconclusive: history rejected before the corrupted line")
+            continue
         if ok or first != where:
             raise vlib.ToolError("negative control %s: corrupted trace %s (expected rejection at line %d)"
                                  % (name, "accepted" if ok else "rejected at line %s" % first, where))
@@ -385,6 +404,7 @@ def finish_negative_controls(ths, results, expect):
         if okind not in kinds:
             raise vlib.ToolError("negative control %s: the contract oracle did not flag %s (got %s)"
                                  % (name, okind, sorted(kinds)))
+    run.note("negative_controls", sorted(expect))
 
 
 # ---------------------------------------------------------------------------------------------
@@ -536,11 +556,10 @@ def run(run, tier, replay):
             acc, drift, states, gen, left = validate_all(run, lines, tmp, flagged, programs,
                                                          chunks=1 if tier == "quick" or replay else 4)
             run.note("runs_left_unvalidated", left)
-            finish_negative_controls(ths, results, expect)
+            finish_negative_controls(run, ths, results, expect, tier != "quick")
             vlib.log("C18: %d runs validated by Trace_Dispatcher in %.0fs" % (acc, time.time() - t0))
             run.add_traces(acc)
             run.note("trace_validation_states", states)
-            run.note("negative_controls", sorted(expect))
             cfgs = {}
             for rs, _ in split_runs(lines):
                 k = "nw=%d %s fault=%s" % (rs["nw"], "concurrent" if rs["concurrent"] else "sequential", rs["fault"])
